@@ -43,7 +43,7 @@ Clause → theorem
                                                                 xmax_below_threshold_floor
   `conditional_sample` as a whole (what the driver op `rej` runs: `condSample`) = row density → x_max search →
   envelope f_max = slack · max over the grid → rejection loop, all on ONE density `condPdf`
-                                                                condSample_spec, condSample_accepted_spec, condSample_maxiter_spec,
+                                                                condSample_spec, condSample_accepted_spec, condSample_maxiter_spec, condSample_could_not_sample,
                                                                 condSample_envelope (ordered field; grid points only), listMax_mem,
                                                                 listMax_ge, condPdf_eq
   "without truncating its tails" FAILS for the code as it is: the search compares the JOINT density
@@ -900,6 +900,53 @@ theorem condSample_maxiter_spec (pdfRow : List α → α) (linspace : α → α 
   let hr := (condSample_spec pdfRow linspace c nDim dim given n maxIter draws co h).2.2.2
   let hs := maxiter_branch_spec _ n maxIter _ co.out hr hw
   ⟨hs.1, hs.2.1⟩
+
+/-- **`CouldNotSampleError` of `conditional_sample`, composed**: it comes from the rejection loop
+only — `x_max` and `f_max` were found, all `max_iter` batches were drawn and not a single `y` lay
+below the joint density at its row. -/
+theorem condSample_could_not_sample (pdfRow : List α → α) (linspace : α → α → Nat → List α)
+    (c : RejConst α) (nDim dim : Nat) (given : List α) (n maxIter : Nat)
+    (draws : α → α → List (List α × List α))
+    (h : condSample pdfRow linspace c nDim dim given n maxIter draws = .error .couldNotSample) :
+    ∃ xMax w m, xmaxSearch (condPdf pdfRow nDim dim given) c.thr c.mult c.lo 64 c.hi = some (xMax, w) ∧
+      listMax ((linspace c.xMin xMax c.gridN).map (condPdf pdfRow nDim dim given)) = some m ∧
+      0 < n ∧ 0 < maxIter ∧ maxIter ≤ (draws xMax (m * c.slack)).length ∧
+      acceptedOf (condPdf pdfRow nDim dim given) (draws xMax (m * c.slack)) maxIter = [] := by
+  unfold condSample at h
+  cases hx : xHat nDim dim given c.hi with
+  | none => rw [hx] at h; simp at h
+  | some r0 =>
+    rw [hx] at h
+    dsimp only at h
+    replace h : (match xmaxSearch (condPdf pdfRow nDim dim given) c.thr c.mult c.lo 64 c.hi with
+      | none => Except.error RejErr.xmaxFuel
+      | some (xMax, w) =>
+        match listMax ((linspace c.xMin xMax c.gridN).map (condPdf pdfRow nDim dim given)) with
+        | none => Except.error RejErr.emptyGrid
+        | some m =>
+          match rejSample (condPdf pdfRow nDim dim given) n maxIter (draws xMax (m * c.slack)) with
+          | Except.error e => Except.error e
+          | Except.ok o =>
+            Except.ok ({ xMax := xMax, xMaxWarning := w, fMax := m * c.slack, out := o } : CondOut α))
+        = Except.error RejErr.couldNotSample := h
+    cases hs : xmaxSearch (condPdf pdfRow nDim dim given) c.thr c.mult c.lo 64 c.hi with
+    | none => rw [hs] at h; simp at h
+    | some r =>
+      obtain ⟨xMax, w⟩ := r
+      rw [hs] at h
+      dsimp only at h
+      cases hm : listMax ((linspace c.xMin xMax c.gridN).map (condPdf pdfRow nDim dim given)) with
+      | none => rw [hm] at h; simp at h
+      | some m =>
+        rw [hm] at h
+        dsimp only at h
+        cases hr : rejSample (condPdf pdfRow nDim dim given) n maxIter (draws xMax (m * c.slack)) with
+        | ok o => rw [hr] at h; simp at h
+        | error e =>
+          rw [hr] at h
+          simp only [Except.error.injEq] at h
+          subst h
+          exact ⟨xMax, w, m, rfl, hm, could_not_sample_spec _ n maxIter _ hr⟩
 
 end cond
 
